@@ -66,10 +66,51 @@ pub open spec fn assignment_protocol(a: Assignment, old: Seq<Event>, new: Seq<Ev
 pub struct IEvent;
 impl IEvent { pub uninterp spec fn incdec(d: WithRange<Identifier>, amount: int, r: Result<(), RuntimeError>) -> Event; }
 impl ExecStmt {
-    /// `self.raw_writer(|val| val.inc(amount)).visit_identifier(dest).unwrap().0`
+    /// `self.raw_writer(|val| val.inc(amount)).visit_identifier(dest).unwrap().0`: the increment closure (inc_closure in
+    /// unit exec_glue) applied to the place the identifier denotes (write path: unit write_val)
     #[verifier::external_body]
-    pub fn visit_inc_dec(&mut self, dest: &WithRange<Identifier>, amount: isize) -> (r: Result<(), RuntimeError>)
+    pub fn inc_in_place(&mut self, dest: &WithRange<Identifier>, amount: isize) -> (r: Result<(), RuntimeError>)
         ensures final(self).control_flow_state == old(self).control_flow_state, final(self).return_val == old(self).return_val,
             final(self).trace@ == old(self).trace@.push(IEvent::incdec(*dest, amount as int, r)),
     { unimplemented!() }
+}
+
+// model for ExecStmt::visit_poetic_number_assignment / visit_poetic_string_assignment (C11 / C03: the literal's value is
+// what the destination receives)
+//@item src/frontend/ast.rs | enum | PoeticNumberAssignmentRHS
+//@end
+//@item src/frontend/ast.rs | struct | PoeticNumberAssignment
+//@end
+//@item src/frontend/ast.rs | struct | PoeticStringAssignment
+//@end
+pub struct PEvent;
+impl PEvent { pub uninterp spec fn rhs(e: PoeticNumberAssignmentRHS, r: Result<Val, RuntimeError>) -> Event; }
+impl ExecStmt {
+    /// `self.producer().visit_poetic_number_assignment_rhs(rhs)` (a read; the dispatch to visit_expression /
+    /// visit_poetic_number_literal is the default method: unit visit_defaults; the literal's value: unit poetic)
+    #[verifier::external_body]
+    pub fn eval_poetic_rhs(&mut self, e: &PoeticNumberAssignmentRHS) -> (r: Result<ProduceValOutput, RuntimeError>)
+        ensures final(self).control_flow_state == old(self).control_flow_state, final(self).return_val == old(self).return_val,
+            final(self).trace@ == old(self).trace@.push(PEvent::rhs(*e, match r { Ok(v) => Ok(v.0), Err(x) => Err(x) })),
+    { unimplemented!() }
+}
+/// `String::clone`
+#[verifier::external_body] pub fn string_clone(s: &String) -> (r: String) ensures r@ == s@ { s.clone() }
+/// X is <poetic number literal or expression>: the right-hand side is evaluated once; its failure is the statement's
+/// failure and nothing is assigned; otherwise exactly that value is assigned to the destination, once
+pub open spec fn poetic_number_protocol(a: PoeticNumberAssignment, old: Seq<Event>, new: Seq<Event>, r: Result<(), RuntimeError>) -> bool {
+    let o = old.len() as int;
+    extends(old, new) && new.len() >= o + 1 && exists|rv: Result<Val, RuntimeError>| #[trigger] PEvent::rhs(a.rhs, rv) == new[o] && match rv {
+        Err(x) => new.len() == o + 1 && r == Err::<(), RuntimeError>(x),
+        Ok(v) => new.len() == o + 2 && assign_tail(a.dest, v, new[o + 1], r),
+    }
+}
+/// X says <text>: exactly one assignment, of the string value whose characters are the literal's text
+pub open spec fn poetic_string_protocol(a: PoeticStringAssignment, old: Seq<Event>, new: Seq<Event>, r: Result<(), RuntimeError>) -> bool {
+    let o = old.len() as int;
+    extends(old, new) && new.len() == o + 1 && match new[o] {
+        Event::Assign(d, w) => d == a.dest && w.v() == SVal::String(a.rhs@) && r is Ok,
+        Event::AssignErr(d, x) => d == a.dest && r == Err::<(), RuntimeError>(x),
+        _ => false,
+    }
 }
